@@ -255,7 +255,7 @@ func opG(s sess, mt int) []string {
 	return o
 }
 
-const nShapes = 13
+const nShapes = 16
 
 // path shapes; the directory of a history is h<id> below the scratch directory
 func shape(id, k int) (tag, path string, setup [][2]string) {
@@ -283,15 +283,23 @@ func shape(id, k int) (tag, path string, setup [][2]string) {
 	case 9:
 		return "deep-rel", h + "/a/b/c/s.json", [][2]string{{"D", h + "/a/b/c"}}
 	case 10:
-		return "missing-abs", "@/" + h + "/missing/s.json", d
+		// the directory is a symbolic link to a directory (as /tmp is on some systems, or a data directory moved to
+		// another volume): it exists and is a directory for everything that opens files below it
+		return "symlinked-dir", "@/" + h + "/link/s.json", [][2]string{{"D", h + "/real"}, {"Y", h + "/link=real"}}
 	case 11:
+		return "missing-abs", "@/" + h + "/missing/s.json", d
+	case 12:
 		return "missing-rel", fmt.Sprintf("nodir%d/s.json", id), nil
-	default:
+	case 13:
 		return "dir-is-file", "@/" + h + "/afile/s.json", [][2]string{{"D", h}, {"T", h + "/afile"}}
+	case 14:
+		return "dir-is-link-to-file", "@/" + h + "/flink/s.json", [][2]string{{"D", h}, {"T", h + "/afile"}, {"Y", h + "/flink=afile"}}
+	default:
+		return "dir-is-dangling-link", "@/" + h + "/dlink/s.json", [][2]string{{"D", h}, {"Y", h + "/dlink=nowhere"}}
 	}
 }
 
-func goodShape(r *vc.Rng) int { return r.Intn(10) }
+func goodShape(r *vc.Rng) int { return r.Intn(11) }
 
 func extContent(r *vc.Rng, s sess) []byte {
 	m := s.mirror()
@@ -532,7 +540,7 @@ func gen(tier, out string) {
 	for i := 0; i < nrand; i++ {
 		k := goodShape(r)
 		if r.Intn(8) == 0 {
-			k = 10 + r.Intn(3)
+			k = 11 + r.Intn(5)
 		}
 		h := newH("random", k)
 		pool := []sess{randSess(r), randSess(r)}
@@ -817,6 +825,12 @@ func (rn *runner) runHistory(hd []string, setup [][]string, ops [][]string) {
 			if err := os.MkdirAll(p, 0o755); err != nil {
 				fatal("mkdir: %v", err)
 			}
+		} else if s[0] == "Y" {
+			i := strings.LastIndex(p, "=")
+			os.Remove(p[:i])
+			if err := os.Symlink(p[i+1:], p[:i]); err != nil {
+				fatal("symlink: %v", err)
+			}
 		} else {
 			if err := os.WriteFile(p, []byte("x"), 0o644); err != nil {
 				fatal("touch: %v", err)
@@ -1080,7 +1094,7 @@ func run(in, casesOut, implOut string, isolate bool) {
 			switch fs[0] {
 			case "H":
 				hd, setup, ops = fs, nil, nil
-			case "D", "T":
+			case "D", "T", "Y":
 				setup = append(setup, fs)
 			case "E":
 				rn.runHistory(hd, setup, ops)
